@@ -16,3 +16,4 @@ open SamVerif.Scope SamVerif.Sig
 #print axioms visit_scope_neutral
 #print axioms block_wrap_no_leak
 #print axioms block_wrap_resolution
+#print axioms block_wrap_expr
